@@ -37,6 +37,8 @@ type xfsTarget struct {
 	root string
 	real bool
 	sim  *SimFS
+	// alt: the directory is opened alternately through fsys and alt (fs.OS <-> fs.OSMMap), session by session
+	alt fs.FileSystem
 }
 
 func realTmpBase() string {
@@ -221,8 +223,20 @@ func (x xfsEngine) exec(t xfsTarget, p *Plan) (run *xfsRun) {
 	}
 	var db *pogreb.DB
 	model := NewModel()
+	nOpens := 0
+	mapped := t.name == "osmmap"
 	open := func() error {
 		logBuf.Reset()
+		if t.alt != nil {
+			// cross-file-system reopen: this session uses the other implementation on the same directory
+			if nOpens%2 == 0 {
+				tap.inner, mapped = t.fsys, false
+			} else {
+				tap.inner, mapped = t.alt, true
+			}
+			nOpens++
+			run.probes["cross_fs_reopen"]++
+		}
 		d, err := pogreb.Open(dir, opts())
 		if err != nil {
 			return err
@@ -317,7 +331,7 @@ func (x xfsEngine) exec(t xfsTarget, p *Plan) (run *xfsRun) {
 			wantFds, wantMaps := 0, 0
 			if isOpen {
 				wantFds = nseg + 3 // segments + main.pix + overflow.pix + lock
-				if t.name == "osmmap" {
+				if mapped {
 					wantMaps = nseg + 2
 				}
 			}
@@ -817,19 +831,20 @@ func (x xfsEngine) targets(p *Plan) ([]xfsTarget, func()) {
 		{name: "mem", fsys: fs.Mem, root: memRoot},
 		{name: "os", fsys: fs.OS, root: "", real: true},
 		{name: "osmmap", fsys: fs.OSMMap, root: "", real: true},
+		{name: "os<->osmmap", fsys: fs.OS, alt: fs.OSMMap, root: "", real: true},
 	}
 	for _, t := range all {
 		switch x.focus {
 		case "C14":
-			if t.name == "os" {
-				continue
-			}
-		case "C15":
-			if !t.real {
+			if t.name == "os" || t.alt != nil {
 				continue
 			}
 		case "C16":
 			if t.name != "simfs" && t.name != "osmmap" {
+				continue
+			}
+		case "C15":
+			if !t.real || t.alt != nil {
 				continue
 			}
 		}
